@@ -261,15 +261,15 @@ def setup(concepts, spec):
     cap = CAP[spec['tier']]
     attach.attach_ctor(concepts)
     cx = concepts.contexts
-    attach.attach(cx.ExportableMixin, 'todict', TodictMonitor(cap))
-    attach.attach(cx.Data, 'fromdict', FromdictMonitor(cap, HEAVY[spec['tier']]))
-    for owner, name, key in [(cx.Data, '__getstate__', 'Context.__getstate__'),
-                             (cx.Data, '__setstate__', 'Context.__setstate__'),
-                             (concepts.lattices.Data, '__getstate__', 'Lattice.__getstate__'),
-                             (concepts.lattices.Data, '__setstate__', 'Lattice.__setstate__'),
+    attach.attach(concepts.Context, 'todict', TodictMonitor(cap))
+    attach.attach(concepts.Context, 'fromdict', FromdictMonitor(cap, HEAVY[spec['tier']]))
+    for owner, name, key in [(concepts.Context, '__getstate__', 'Context.__getstate__'),
+                             (concepts.Context, '__setstate__', 'Context.__setstate__'),
+                             (concepts.lattices.Lattice, '__getstate__', 'Lattice.__getstate__'),
+                             (concepts.lattices.Lattice, '__setstate__', 'Lattice.__setstate__'),
                              (concepts.matrices.Relation, '__reduce__', 'Relation.__reduce__'),
                              (concepts.matrices.Vectors, '__reduce__', 'Vectors.__reduce__'),
-                             (cx.ExportableMixin, 'tojson', 'tojson'), (cx.Data, 'fromjson', 'fromjson')]:
+                             (concepts.Context, 'tojson', 'tojson'), (concepts.Context, 'fromjson', 'fromjson')]:
         try:
             attach.attach(owner, name, Counter(key))
         except (KeyError, core.HarnessError):
